@@ -2,11 +2,12 @@
    Model of FlowIR.inject_default_values (weight normalisation, flowir.py), of the re-check in
    StatusMonitor.__init__ (output.py) and of the accumulation in StatusMonitor.run/CheckStatus.
 
-   Units.  A weight given by the package is a decimal number with at most four decimals; it is
-   represented by the integer m = 10000 * w ("ten-thousandths").  The code computes
-   int(w * 1000), i.e. truncation toward zero of the thousandths: Z.quot m 10.  The tie between
-   this integer arithmetic and the binary floating point arithmetic of the code is FloatTie.v
-   (finite sweeps) plus the correspondence run. *)
+   Units.  A weight given by the package is a decimal number; with a scale c >= 1 it is represented
+   by the integer m = 1000 * c * w.  The default weights are computed in thousandths; the tie
+   between this integer arithmetic and the binary floating point arithmetic of the code is
+   FloatTie.v (finite sweeps), FloatSum.v (accumulation) plus the correspondence run.
+   (The pinned code computed int(w * 1000), truncation toward zero of the thousandths:
+   Z.quot m 10 for c = 10 — kept as normalise_trunc for Refuted.v.) *)
 From Coq Require Import ZArith List Bool.
 Import ListNotations.
 Open Scope Z_scope.
@@ -33,22 +34,33 @@ Definition fallback (n : nat) : list Z :=
            else repeat (fb (Z.of_nat n)) n
   end.
 
-(* given: one entry per stage, ten-thousandths; a missing/unparsable weight is 0.
-   Result in ten-thousandths. *)
-Definition accepted (given : list Z) : bool :=
+(* given: one entry per stage; a missing/unparsable weight is 0.  Unit: 1/(1000*c) for a scale
+   c >= 1 chosen by the caller (c = 1: thousandths, c = 10: ten-thousandths, c = 10^(d-3) for
+   weights written with d decimals), so weights with ANY number of decimals are covered.
+   FlowIR.stage_weights_add_to_one (fix of F20b) compares the weights as the decimal numbers they
+   were written as: exact sum = 1 and no negative entry.  The defaults are thousandths, i.e.
+   multiples of c.  Result in the same unit. *)
+Definition accepted (c : Z) (given : list Z) : bool :=
+  (sumZ given =? 1000 * c) && forallb (fun m => 0 <=? m) given.
+
+Definition normalise (c : Z) (given : list Z) : list Z :=
+  if accepted c given then given else map (Z.mul c) (fallback (length given)).
+
+(* the behaviour of the pinned code before the fix of F20b (unit: ten-thousandths, c = 10):
+   the weights were judged by their truncated thousandths int(w * 1000) *)
+Definition accepted_trunc (given : list Z) : bool :=
   (sumZ (map trunc1000 given) =? 1000) && forallb (fun m => 0 <=? m) given.
+Definition normalise_trunc (given : list Z) : list Z :=
+  if accepted_trunc given then given else map (Z.mul 10) (fallback (length given)).
 
-Definition normalise (given : list Z) : list Z :=
-  if accepted given then given else map (Z.mul 10) (fallback (length given)).
-
-(* the behaviour of the pinned code before the fix of F20a (negative weights were kept) *)
+(* ... and before the fix of F20a (negative weights were kept) *)
 Definition accepted_prefix (given : list Z) : bool := sumZ (map trunc1000 given) =? 1000.
 Definition normalise_prefix (given : list Z) : list Z :=
   if accepted_prefix given then given else map (Z.mul 10) (fallback (length given)).
 
-(* StatusMonitor.__init__: re-check of the (already normalised) weights; on failure every weight
-   becomes 1.0/n — represented here by None (not a decimal). *)
-Definition monitor_accepts (ws : list Z) : bool := sumZ (map trunc1000 ws) =? 1000.
+(* StatusMonitor.__init__: re-check of the (already normalised) weights with the same test; on
+   failure every weight becomes 1.0/n — represented here by the verdict false. *)
+Definition monitor_accepts (c : Z) (ws : list Z) : bool := accepted c ws.
 
 (* total progress: stage i contributes a_i/D of its weight (finished stages: a_i = D).
    Numerator over the common denominator D * 10000. *)
@@ -59,9 +71,9 @@ Fixpoint total (ws prog : list Z) : Z :=
   end.
 
 (* what the correspondence compares: normalised weights and the monitor verdict *)
-Definition run_case (given : list Z) : list Z * bool :=
-  let w := normalise given in (w, monitor_accepts w).
+Definition run_case (c : Z) (given : list Z) : list Z * bool :=
+  let w := normalise c given in (w, monitor_accepts c w).
 
-Definition check_case (c : list Z * (list Z * bool)) : bool :=
-  let r := run_case (fst c) in
-  (if list_eq_dec Z.eq_dec (fst r) (fst (snd c)) then true else false) && Bool.eqb (snd r) (snd (snd c)).
+Definition check_case (x : (Z * list Z) * (list Z * bool)) : bool :=
+  let r := run_case (fst (fst x)) (snd (fst x)) in
+  (if list_eq_dec Z.eq_dec (fst r) (fst (snd x)) then true else false) && Bool.eqb (snd r) (snd (snd x)).
